@@ -151,7 +151,8 @@ func allLeafValues() []interface{} {
 		vs = append(vs, s)
 	}
 	vs = append(vs, true, false, ggql.Symbol("RED"), ggql.Symbol("NOPE"),
-		time.Date(2021, 3, 4, 5, 6, 7, 8, time.UTC), time.Unix(0, 0).UTC(),
+		time.Date(2021, 3, 4, 5, 6, 7, 8, time.UTC), time.Unix(0, 0).UTC(), time.Time{}, time.Unix(-1, 0).UTC(),
+		time.Date(9999, 12, 31, 23, 59, 59, 0, time.UTC),
 		struct{ A int }{1}, map[string]interface{}{"a": 1}, (*int)(nil), []byte("xy"), complex(1, 2))
 	return vs
 }
